@@ -1897,7 +1897,9 @@ func sridReaderEval(p *core.Program, r *core.Report, rule string) {
 				word |= specEWKBSRIDFlag
 			}
 			readSRID := false
-			ev := &eng.ConstEval{Inline: pureTableHelper}
+			ev := &eng.ConstEval{Inline: func(f *ssa.Function) bool {
+				return pureTableHelper(f) || (core.FnPkgPath(topLevel(f)) == core.FnPkgPath(rd) && f != rd)
+			}}
 			ev.Override = func(fn *ssa.Function, v ssa.Value, args []eng.CVal) (eng.CVal, bool) {
 				if g, ok := eng.GlobalInit(v); ok {
 					return g, true
